@@ -19,6 +19,7 @@ RULE = ("random sequences of all classes (quick <= 80, thorough <= 200 residues)
 RULE += ("; added after the mutation rounds: objects with phosphosites set; numpy.str_ group members; short linkers whose recoded ratio falls in (1,1.1); the first cases of every shard are judged again at its end")
 RULE += ("; round 6: very unequal group sizes with >= 18 residues outside both groups; reference and swap law on the default groups; a group given as one string that reads as a word (CHARGED, ACIDIC, ...)")
 RULE += ("; round 7: groups handed over as frozenset; invalid members inside tuple / set / frozenset groups")
+RULE += ("; round 8: group members with a trailing / leading line break, blank or tab")
 EXHAUSTIVE = {"quick": False, "thorough": False}
 ASSUMPTIONS = [
     "identities between two library results are judged to 1e-9 relative (recoding swaps which class is called "
